@@ -483,7 +483,7 @@ def do(op, a):
         return out(f)
     if op == 'eq_hash':
         def f(x, y):
-            return [t_bool(x == y), t_bool(hash(x) == hash(y)), t_bool(len({x, y}) == 1), t_bool(x == y.string), t_bool(len({x: 1, y: 2}) == 1)]
+            return [t_bool(x == y), t_bool(hash(x) == hash(y)), t_bool(len({x, y}) == 1), t_bool(x == y.string), t_bool(len({x: 1, y: 2}) == 1), x.uri, y.uri]
         return with_sid(a[0], lambda x: with_sid(a[1], lambda y: out(lambda: f(x, y))))
     if op == 'sorted':
         def f():
